@@ -227,6 +227,40 @@ def gen_rich_program(rng):
     return "\n".join(lines), kind
 
 
+def gen_relational_program(rng):
+    """Non-ground, acyclic: probabilistic edges of a small DAG over a<b<c<d, a two-step path
+    predicate (several proofs per answer, answers sharing sub-proofs), findall/all over a
+    partially bound goal with a compound or plain template, one call per binding of an outer
+    variable in half of the programs (several builtin calls per program)."""
+    names = ["a", "b", "c", "d"]
+    pairs = [(x, y) for i, x in enumerate(names) for y in names[i + 1:]]
+    edges = rng.sample(pairs, rng.randint(2, 4))
+    lines = []
+    for x, y in edges:
+        if rng.random() < 0.2:
+            lines.append("e(%s,%s)." % (x, y))
+        else:
+            lines.append("0.%d::e(%s,%s)." % (rng.randint(1, 9), x, y))
+    lines.append("p(X,Y) :- e(X,Y).")
+    if rng.random() < 0.8:
+        lines.append("p(X,Y) :- e(X,Z), e(Z,Y).")
+    if rng.random() < 0.3:
+        lines.append("p(X,Y) :- e(X,Y), \\+e(a,b).")
+    kind = rng.choice(["findall", "findall", "all", "all_or_none"])
+    shape = rng.randint(0, 2)
+    if shape == 0:
+        lines.append("q(L) :- %s(Y, p(%s,Y), L)." % (kind, rng.choice(["a", "b"])))
+        lines.append("query(q(_)).")
+    elif shape == 1:
+        lines.append("q(L) :- %s(X-Y, p(X,Y), L)." % kind)
+        lines.append("query(q(_)).")
+    else:
+        lines.append("s(a). s(b).")
+        lines.append("q(S,L) :- s(S), %s(Y, p(S,Y), L)." % kind)
+        lines.append("query(q(_,_)).")
+    return "\n".join(lines), kind
+
+
 CYCLIC_WITNESS = """0.5::e(a,b). 0.5::e(b,c). 0.5::e(c,b). 0.5::e(a,c).
 r(X) :- e(a,X).
 r(X) :- r(Y), e(Y,X).
